@@ -110,7 +110,9 @@ pub fn setup() {
                 name,
                 115,
                 InfixOpType::CALC,
-                InfixOpAssociativity::LEFT,
+                // the second logging operator is right-associative: operands are still evaluated
+                // left to right (programs are rendered fully parenthesised)
+                if name == "vh_in1" { InfixOpAssociativity::RIGHT } else { InfixOpAssociativity::LEFT },
                 Arc::new(move |a, b| on_call(id, &[a, b], &ret)),
             );
         }
